@@ -27,6 +27,7 @@ SPEC = 'MetaData'
 # (cfg, invariant TLC must find violated, known-finding pattern the real client must show)
 LEADS = [('MetaData.Lead_drop.cfg', 'Inv_Default', 'default_rp_dangling_after_drop'),
          ('MetaData.Lead_rename.cfg', 'Inv_Default', 'default_rp_dangling_after_rename'),
+         ('MetaData.Lead_emptyname.cfg', 'Inv_Names', 'rp_renamed_to_empty_name'),
          ('MetaData.Lead_halfyear.cfg', 'Inv_ProbeOutcomes', 'shard_group_duration_default_at_180d')]
 # operations that must have advanced some witness history (DropDatabase only ever leads back to a state BFS has already seen:
 # it is covered as a probe in every state and as a step in the simulated behaviours) / that must have been probed
@@ -212,7 +213,7 @@ def run(ctx):
                 errs.append(str(e))
     if errs:
         raise vlib.Inconclusive(' | '.join(errs)[:3000])
-    with ThreadPoolExecutor(max_workers=max(1, min(3, ncpu))) as ex:
+    with ThreadPoolExecutor(max_workers=max(1, min(4, ncpu))) as ex:
         lead_res = list(ex.map(lead, LEADS))
     leads = {}
     for pattern, tlen, lcases in lead_res:
@@ -276,7 +277,7 @@ def run(ctx):
     ctx.assumptions += [
         'single meta client, operations one at a time (the client serialises them under its mutex); kv store errors are not injected',
         'durations are concretised per case, one value per point of the scale (0, <1h incl. negative, 1h, (1h,1d), 1d, (1d,2d), 2d, (2d,7d), 7d, (7d,180d), 180d, >180d); "6 months" = 180 days',
-        'UpdateRetentionPolicy is driven with Name / Duration / ShardGroupDuration (not ReplicaN); names longer than 255 bytes and renaming to the empty name are not modelled',
+        'UpdateRetentionPolicy is driven with Name / Duration / ShardGroupDuration (not ReplicaN); names longer than 255 bytes are not modelled',
         'the order of databases / policies in the listing is compared as drift only',
     ]
 
@@ -286,10 +287,10 @@ META = {
     'level': 'model_checking',
     'text': 'TLC checks the contract of database / retention-policy meta data (unique names, default policy exists, duration rules, refused '
             'operations change and commit nothing, frame conditions, documented shard-group-duration defaulting, reload identity) on the '
-            'intended design, finds it violated under three quirks of the code (leads, reproduced on the real client), and every operation in '
+            'intended design, finds it violated under four quirks of the code (leads, reproduced on the real client), and every operation in '
             'every reached state of the model with the code\'s quirks is replayed on the real meta.Client with persist + reload after every step.',
     'design_ref': '5.11',
-    'note': 'Trusted: TLC, the driver\'s concretisation tables and TLA+ value parser (150 lines), the three known-finding predicates. '
+    'note': 'Trusted: TLC, the driver\'s concretisation tables and TLA+ value parser (150 lines), the four known-finding predicates. '
             'Small scope: 2 databases, 3 policy names, 12 duration points, <= 2 shard groups, histories of 2-4 changing operations (+ random walks).',
     'technique': 'TLA+ spec (MetaData.tla) + TLC exhaustive + replay of TLC histories/probes on the real meta client',
     'quick_s': 150, 'thorough_s': 1200,
